@@ -555,6 +555,48 @@ def suite_by_name(name):
     return next(s for s in SUITES if s.name == name)
 
 
+def chain_designs(r, n_cases):
+    """many samples linked in a CHAIN (sample k shares peptides only with k+1: a time course, a dilution series) - the sparsest
+    connected design, where the least-squares problem needs the most iterations; intensities are exactly peptide factor x sample
+    factor, so the LFQ intensities must be proportional to the sample factors and sum to the summed intensity (monitor only)"""
+    from picked_group_fdr.columns import lfq
+    from picked_group_fdr.precursor_quant import PrecursorQuant as PQ
+    n = 0
+    for _ in range(n_cases):
+        rng = r.rng
+        ns = rng.choice([12, 25, 30, 40, 60])
+        per_link = rng.choice([2, 3])
+        b = [float(2 ** rng.randint(0, 4) * rng.choice([1, 3, 5])) for _ in range(ns)]
+        names = [f"S{k:03d}" for k in range(ns)]
+        precs, total = [], 0.0
+        for k in range(ns - 1):
+            for j in range(per_link):
+                a = float(2 ** rng.randint(8, 12))
+                for smp in (k, k + 1):
+                    precs.append(PQ(f"PEP{k}x{j}K", 2, names[smp], "1", a * b[smp], 0.001, None, None, len(precs)))
+                    total += a * b[smp]
+        rng.shuffle(precs)
+        stab = rng.random() < 0.5
+        n += 1
+        try:
+            out = [float(x) for x in lfq._getLFQIntensities(precs, {nm: i for i, nm in enumerate(names)}, 0.01, per_link, stab, None, 10, 0)]
+            ratio = [o / f for o, f in zip(out, b)]
+            spread = max(ratio) / min(ratio) - 1 if min(ratio) > 0 else float("inf")
+            problem = None
+            if spread > 1e-3:
+                problem = f"LFQ / sample factor varies by {spread:.2%} across the samples"
+            elif abs(sum(out) - total) > 1e-6 * total:
+                problem = f"LFQ intensities sum to {sum(out)}, the peptides used sum to {total}"
+        except Exception as e:
+            problem = f"raised {type(e).__name__}: {e}"[:160]
+        if problem:
+            r.violation("property-failure", {"suite": "chain_designs", "samples": ns, "peptides_per_link": per_link, "sample_factors": b,
+                                             "stabilisation": stab, "problem": problem}, True,
+                        f"chain_designs: {ns} samples in a chain, consistent data, stabilisation {stab}: {problem}")
+            return n
+    return n
+
+
 def order_tie_replay(r):
     """The witness of C11_precursor_order_matters_on_full_key_ties on the real code: two rows that tie on the whole sort key (peptide,
     charge, experiment, fraction, intensity, PEP) and differ in their SILAC channels, in both orders - plus a control in which the
@@ -588,7 +630,7 @@ def order_tie_replay(r):
 
 
 def run(r: core.Runner):
-    r.traces = (r.traces or 0) + order_tie_replay(r)
+    r.traces = (r.traces or 0) + order_tie_replay(r) + chain_designs(r, core.tier_n(r.tier, 6, 40))
     r.assumptions += [
         "np.log / np.exp / float division / bottleneck.nanmedian / scipy lsqr are outside the model: medians are compared to 1e-13, "
         "log values through a tabulated ln to 1e-11, the least-squares answer through its normal equations to 1e-3 (lsqr tolerances 1e-6)",
